@@ -103,6 +103,7 @@ type Result struct {
 	Inlined []string // "callee into caller at file:line"
 	Kept    []string // new functions whose calls could not all be inlined, with the reason
 	New     []string // functions not in the baseline
+	Undone  []string // function<->method conversions undone
 }
 
 type callee struct {
@@ -134,6 +135,7 @@ func Transform(pkgs []*packages.Package, excluded func(filename string) bool) *R
 		return in.res
 	}
 	in.fset = pkgs[0].Fset
+	in.deconvert(pkgs, excluded)
 	for _, pk := range pkgs {
 		for _, f := range pk.Syntax {
 			fname := in.fset.Position(f.Pos()).Filename
@@ -161,7 +163,7 @@ func Transform(pkgs []*packages.Package, excluded func(filename string) bool) *R
 		}
 	}
 	sort.Strings(in.res.New)
-	if len(in.callees) == 0 {
+	if len(in.callees) == 0 && len(in.dirty) == 0 {
 		return in.res
 	}
 	// rewrite every function body of the packages that have new functions;
